@@ -42,12 +42,7 @@ def createTemplate (T : Tables) (fuel : Nat) (edition : Nat) (descs : List Nat) 
         .ok { edition := edition, descs := descs, gabarit := g, hasDelayed := delayed || d2 }
 
 /-- `bufr_sequence_to_array(bsq, 1)`: every node of a value-bearing type gets a value (missing) -/
-def mkvalAll (ns : List Node) : List Node :=
-  ns.map fun n =>
-    if n.hasVal then n
-    else match n.enc.type with
-      | .ccitt | .ieee | .numeric | .codetable | .flagtable | .chngRef => { n with hasVal := true, ival := -1 }
-      | _ => n
+def mkvalAll (ns : List Node) : List Node := ns.map mkvalNode
 
 /-- `bufr_create_afd` calls `bufr_abort` when the associated fields in force exceed 64 bits -/
 def afAbort (ns : List Node) : Bool := ns.any fun n => decide (n.af.foldl (· + ·) 0 > 64)
